@@ -226,6 +226,23 @@ def table(ctx: Ctx, rule="R-C17-TABLE") -> None:
                 ok = impl is not None and impl.cls is not None and impl.cls.qualname != c.qualname and impl.is_async
                 ctx.check(ok, rule, sub.qualname, f"{sub.name}.{nm} implemented", "wrapped on every instance", f"{sub.name} does not implement wrapped operation '{nm}'",
                           instance=f"{sub.name}.{nm}")
+    # implementations keep the declared parameter names: signals are keyed by them and callers pass them by keyword
+    for base in ("ConsumerT", "MessageBrokerT", "BucketBrokerT"):
+        c = ctx.prog.cls(f"{ABC}.{base}")
+        wm = c.attrs.get("__WRAPPED_METHODS__")
+        for nm in [e.value for e in wm.elts if isinstance(e, ast.Constant)]:
+            decl = c.methods.get(nm)
+            if decl is None:
+                continue
+            want_p = [p_.arg for p_ in decl.params()]
+            for sub in ctx.prog.subclasses(c.qualname):
+                impl = sub.methods.get(nm)
+                if impl is None or any("Protocol" in b for b in sub.base_exprs):
+                    continue
+                got_p = [p_.arg for p_ in impl.params()]
+                ctx.check(got_p == want_p, rule, impl, f"{sub.name}.{nm}{tuple(got_p[1:])} keeps the declared parameter names", f"{want_p[1:]}",
+                          f"{sub.name}.{nm} takes {got_p[1:]} but {base}.{nm} declares {want_p[1:]}: before_/after_ signals of this implementation carry other argument names than "
+                          "subscribers are written for, and callers that pass the declared names by keyword fail", instance=f"{sub.name}.{nm}: parameter names")
     ctx.check(wrapped == union | {"actor_run"}, rule, "repid.middlewares.consts", "WRAPPED == union(__WRAPPED_METHODS__) + actor_run", "signal names cover exactly the wrapped operations",
               f"WRAPPED differs from the wrapped methods: missing {sorted((union | {'actor_run'}) - wrapped)}, extra {sorted(wrapped - union - {'actor_run'})}: subscribers for those "
               "operations are refused or never called", instance="WRAPPED table")
@@ -262,6 +279,8 @@ def isolate(ctx: Ctx, rule="R-C17-ISOLATE") -> None:
                 cands.append((o, nf, cs))
     ctx.require(len(cands) == 1, f"{f.qualname}: nested wrapper not found")
     owner, w, calls = cands[0]
+    asy_names = {t.id for a in ast.walk(owner.node) if isinstance(a, ast.Assign) and isinstance(a.value, ast.Call) and (dotted(a.value.func) or "").split(".")[-1] == "asyncify"
+                 for t in a.targets if isinstance(t, ast.Name)}
     ctx.require(len(calls) == 1, f"{w.qualname}: subscriber call not found")
     tries = [t for t in ast.walk(w.node) if isinstance(t, ast.Try) and any(x is calls[0] for st in t.body for x in ast.walk(st))]
     if not ctx.check(len(tries) == 1, rule, w, "subscriber call inside try", "isolated", "the subscriber is called outside any try: its exception fails the operation", node=calls[0],
@@ -288,6 +307,15 @@ def isolate(ctx: Ctx, rule="R-C17-ISOLATE") -> None:
                 ctx.check(False, rule, w, f"call in the subscriber handler: {unparse(c)[:60]}", "", f"the subscriber exception handler calls {unparse(c)[:60]}, which can raise",
                           node=c, instance="subscriber handler extra call")
     # kwargs filtered by the subscriber's signature; registered under its name
+    # the kwargs filter uses the SUBSCRIBER's own signature (the asyncify wrapper of a sync function accepts *args/**kwargs: its argspec names nothing)
+    fparam0 = [p_.arg for p_ in f.params()][1]
+    specs = [c for o_ in owners for c in ast.walk(o_.node) if isinstance(c, ast.Call) and (dotted(c.func) or "").split(".")[-1] in ("getfullargspec", "signature", "getargspec")]
+    ok_spec = bool(specs) and all(len(c.args) == 1 and (C.utext(owner, c.args[0]) == fparam0 or (owner is not f and isinstance(c.args[0], ast.Name) and c.args[0].id in [p_.arg for p_ in owner.params()]
+                                                                                                 and c.args[0].id not in asy_names)) for c in specs)
+    ctx.check(ok_spec, rule, f, "subscriber kwargs filtered by the subscriber's own signature", f"getfullargspec({fparam0})",
+              f"add_subscriber inspects {[unparse(c)[:50] for c in specs]}: the signature of the asyncify wrapper (not of the subscriber) names no parameters, so synchronous "
+              "subscribers that declare arguments are called without them, fail with TypeError (logged) and never observe the signal", instance="subscriber signature source")
+
     def is_wrapper(e_):
         """e_ (in add_subscriber) denotes the isolating wrapper: the nested function itself or what the helper that defines it returns."""
         if isinstance(e_, ast.Name) and owner is f and e_.id == w.name:
